@@ -89,13 +89,16 @@ def install(reg):
     M[np.setdiff1d] = m_setdiff1d
 
     class SymGenerator:
-        """np.random.Generator abstraction: permutation(x) returns x composed with an arbitrary bijection."""
+        """np.random.Generator abstraction: permutation(x) returns x composed with an arbitrary bijection.
+        `seed` (term or None) and `draws` identify the generator state: default_rng(s) is a function of s (trusted)."""
 
         _pyvc_value = True
 
-        def __init__(self, name="rng"):
+        def __init__(self, name="rng", seed=None):
             self.name = name
             self.draws = 0
+            self.seed = seed
+            self.bit_generator = _BitGen(seed)
 
         def permutation(self, x):
             ctx = V.cur()
@@ -120,6 +123,19 @@ def install(reg):
 
     reg.SymGenerator = SymGenerator
 
+    def m_default_rng(interp, seed=None):
+        if seed is None:
+            return SymGenerator("rng_unseeded", seed=None)
+        if isinstance(seed, SymGenerator):
+            return seed
+        if contains_sym(seed):
+            if interp.truth(S(seed) < 0):
+                raise RaiseSig(ValueError("expected non-negative integer"))
+            return SymGenerator("rng_seeded", seed=seed)
+        return interp.native(np.random.default_rng, seed)
+
+    M[np.random.default_rng] = m_default_rng
+
     def m_isinstance_gen(interp, x, t):
         return NotImplemented
 
@@ -136,6 +152,20 @@ def install(reg):
     reg.isinstance_model = isinstance_model
 
 
+class _SeedSeq:
+    _pyvc_value = True
+
+    def __init__(self, seed):
+        self.entropy = seed
+
+
+class _BitGen:
+    _pyvc_value = True
+
+    def __init__(self, seed):
+        self._seed_seq = _SeedSeq(seed)
+
+
 def slice_index_array(arr, key):
     """Slicing that maintains mem / inv ghosts for index arrays: [:m] and [::k]."""
     r = SymArr.__getitem__(arr, key)
@@ -144,16 +174,18 @@ def slice_index_array(arr, key):
     lo, hi, step, ln = SymArr._slice_bounds(key, arr.shape[0])
     lo_t, ln_t = lift(lo), lift(ln)
 
+    sym_step = V.is_z3(step)
+
     def mem(v, _a=arr):
         p = _a.inv(v) - lo_t
         c = [_a.mem(v), p >= 0, p < ln_t * step]
-        if step != 1:
+        if sym_step or step != 1:
             c.append(p % step == 0)
         return z3.And(*c)
 
     def inv(v, _a=arr):
         p = _a.inv(v) - lo_t
-        return p / step if step != 1 else p
+        return p / step if (sym_step or step != 1) else p
 
     r.mem, r.inv = mem, inv
     r.as_type = np.ndarray
